@@ -195,6 +195,8 @@ def judge_line(line, ans):
     if ans["r"] == "panic":
         return {"field": "parse_check_line panicked (the property allows Ok or Err only)", "observed": "PANIC: " + ans["msg"],
                 "expected": "Err" if want is None else "Ok %r" % (want,), "panic": ans["msg"]}
+    if ans["r"] == "died" and ans.get("rc") == -9:
+        return None     # OUR wall-clock limit killed the driver (loaded machine): no verdict, never a finding
     if ans["r"] in ("died", "garbled"):
         return {"field": "driver stopped while parsing this line", "observed": str(ans), "expected":
                 "Err" if want is None else "Ok"}
@@ -362,11 +364,16 @@ def search_lines(binp, seed, log):
     for (label, line), a in zip(cases, ans):
         m = judge_line(line, a)
         if m:
-            return _line_scenario(label, line, m), m
+            # confirm in isolation with a generous limit: a failure that does not repeat is noise, not a finding
+            a2 = run_driver(binp, [("L", line.encode("utf-8"))], timeout=300)[0]
+            m = judge_line(line, a2)
+            if m:
+                return _line_scenario(label, line, m), m
+            log.setdefault("notes", []).append("unconfirmed line failure dropped: %s" % label)
     return None, None
 
 
-def _b3sum(binp, cwd, args, timeout=30):
+def _b3sum(binp, cwd, args, timeout=120):
     """run the ordinary b3sum; returns (rc, stdout BYTES, stderr text)"""
     env = dict(os.environ)
     env.pop(ENV_VAR, None)
@@ -386,6 +393,8 @@ def judge_roundtrip(binp, cwd, pb, content, tag):
     want = checkfile.format_line(ps, hx, tag)
     rc, out, err = _b3sum(binp, cwd, (["--tag"] if tag else []) + ["--", os.fsdecode(pb)])
     form = "--tag" if tag else "plain"
+    if rc == -9:
+        return None     # timeout of our own making: no verdict
     if rc != 0:
         return {"field": "b3sum failed to hash an existing file (%s form)" % form, "observed": "rc=%s %s" % (rc, err[-300:]),
                 "expected": want}
@@ -452,6 +461,8 @@ def search_roundtrips(binp, root, log):
                 continue
         for pb, content in paths:
             m = judge_roundtrip(binp, d, pb, content, tag)
+            if m:
+                m = judge_roundtrip(binp, d, pb, content, tag)     # confirm once more
             if m:
                 sc = {"kind": "b3sum_path", "path_bytes_hex": pb.hex(), "path": checkfile.lossy(pb),
                       "content_hex": content.hex(), "form": "tag" if tag else "plain",
